@@ -126,6 +126,38 @@ Definition run_sched (shared : bool) (n : nat) (sch : list (nat * (Z * Z))) : li
   let r := snd (crun shared cs0 (map (fun x => (fst x, decode_op (fst (snd x)) (snd (snd x)))) sch)) in
   map (fun t => map obs_code (obs_of t r)) (seq 0 n).
 
+(* ---- the concrete call paths, as regenerated from the sources (C22/Gen.v).
+   Every path into foreign code is a sequence of three kinds of steps; the abstract operations
+   above assume the two brackets below. *)
+Inductive bstep := BRestore | BSave | BForeign.
+Definition call_bracket : list bstep := [BRestore; BForeign; BSave].   (* Python -> C -> Python *)
+Definition cb_bracket : list bstep := [BSave; BForeign; BRestore].     (* C -> Python -> C *)
+
+Definition restore_fn (s : ts) : ts := mkTs (saved s) (saved s).       (* errno = cffi_saved_errno *)
+Definition save_fn (s : ts) : ts := mkTs (cerr s) (cerr s).            (* cffi_saved_errno = errno *)
+
+Fixpoint exec_path (path : list bstep) (body : list op) (s : ts) : ts * list obs :=
+  match path with
+  | [] => (s, [])
+  | BRestore :: rest => exec_path rest body (restore_fn s)
+  | BSave :: rest => exec_path rest body (save_fn s)
+  | BForeign :: rest =>
+      let '(s1, o1) := run1 s body in
+      let '(s2, o2) := exec_path rest body s1 in (s2, o1 ++ o2)
+  end.
+
+(* bodies of b_get_errno / b_set_errno as statement sequences *)
+Inductive estep := ERestoreOnly | ESaveOnly | EReadErrno | EZeroErrno | EAssignErrno.
+Fixpoint exec_e (body : list estep) (ival : Z) (s : ts) (r : option Z) : ts * option Z :=
+  match body with
+  | [] => (s, r)
+  | ERestoreOnly :: rest => exec_e rest ival (restore_fn s) r
+  | ESaveOnly :: rest => exec_e rest ival (save_fn s) r
+  | EReadErrno :: rest => exec_e rest ival s (Some (cerr s))
+  | EZeroErrno :: rest => exec_e rest ival (mkTs 0 (saved s)) r
+  | EAssignErrno :: rest => exec_e rest ival (mkTs ival (saved s)) r
+  end.
+
 (* compact encoding (one numeral per step; observations compared through two fingerprints
    computed here — numerals are what costs time in coqc):
    step = ((thread * 16 + opcode) * 2^72) + (value + 2^71) *)
